@@ -22,6 +22,7 @@ import vlib
 LEVEL = "model_checking"
 
 LAYOUT_TOKS = {"@nl", "@sep", "@ind", "@ind?", "@out", "@out?"}
+RESERVED = ["as", "async", "await", "class", "del", "except", "finally", "from", "global", "import", "is", "nonlocal", "raise", "try", "with", "yield"]
 OPTIONAL_TOKS = {"@n", "@(", "@)", "@,", "@:"}
 
 # resolver messages that enforce the part of the grammar the parser leaves to it
@@ -62,7 +63,12 @@ def printed_trees(r):
 
 
 def canonical(toks):
+    """minimal parentheses, no optional item; the parentheses NeedsParens requires stay marked"""
     return [t for t in toks if t not in OPTIONAL_TOKS]
+
+
+def plain(toks):
+    return ["(" if t == "@(!" else ")" if t == "@)!" else t for t in toks]
 
 
 # ------------------------------------------------------------------ part (a)
@@ -118,7 +124,17 @@ def confirm_tree(ctx, mode, rec, fail):
 
 
 # ------------------------------------------------------------------ part (c)
-def mutants(toks):
+def mutants(marked, rnd):
+    """single-token deletions, duplications and adjacent swaps; and the removal of one pair of
+    parentheses that the precedence table requires (the text then has another tree or none)"""
+    stack = []
+    for i, t in enumerate(marked):
+        if t == "@(!":
+            stack.append(i)
+        elif t == "@)!":
+            j = stack.pop()
+            yield "unparen", plain(marked[:j] + marked[j + 1:i] + marked[i + 1:])
+    toks = plain(marked)
     idx = [i for i, t in enumerate(toks) if t not in LAYOUT_TOKS]
     for i in idx:
         # deleting the only token of a line would leave a blank line, which is not a line at all
@@ -129,6 +145,11 @@ def mutants(toks):
     for a, b in zip(idx, idx[1:]):
         if b == a + 1 and toks[a] != toks[b]:
             yield "swap", toks[:a] + [toks[b], toks[a]] + toks[b + 1:]
+    # a reserved word where an identifier stands
+    ids = [i for i in idx if re.fullmatch(r"v\d+|fn|[pqrukwnmf]", toks[i])]
+    if ids:
+        i = rnd.choice(ids)
+        yield "reserved", toks[:i] + [rnd.choice(RESERVED)] + toks[i + 1:]
 
 
 def near_cases(rnd, recs, n_orig, max_len):
@@ -137,7 +158,7 @@ def near_cases(rnd, recs, n_orig, max_len):
     out, seen = [], set()
     for r in pool[:n_orig]:
         c = canonical(r["toks"])
-        for kind, t in [("orig", c)] + list(mutants(c)):
+        for kind, t in [("orig", plain(c))] + list(mutants(c, rnd)):
             key = tuple(t)
             if key in seen or not [x for x in t if x not in LAYOUT_TOKS]:
                 continue
@@ -442,21 +463,31 @@ def plan(ctx):
     if ctx.quick:
         return {
             "expr": [("e2full", 2, "full", "id", 0, 4), ("e3small", 3, "small", "id", 0, 3), ("e1lits", 1, "mid", "all", 0, 4),
-                     ("ernd", 10, "full", "all", 250, 4)],
-            "file": [("f2full", 2, "full", "id", 0, 4), ("f3mid", 3, "mid", "id", 0, 4), ("frnd", 7, "full", "id", 120, 4)],
-            "near": {"expr": (70, 22), "file": (40, 30)},
+                     ("ernd", 10, "full", "all", 120, 4)],
+            "file": [("f2full", 2, "full", "id", 0, 4), ("f3mid", 3, "mid", "id", 0, 4), ("frnd", 7, "full", "id", 60, 4)],
+            "near": {"expr": (60, 22), "file": (35, 30)},
         }
     return {
-        "expr": [("e2full", 2, "full", "id", 0, 6), ("e3mid", 3, "mid", "id", 0, 3), ("e2lits", 2, "small", "all", 0, 3), ("e1lits", 1, "full", "all", 0, 4),
-                 ("ernd", 12, "full", "all", 3000, 5)],
-        "file": [("f2full", 2, "full", "id", 0, 6), ("f3full", 3, "full", "id", 0, 3), ("f4mid", 4, "mid", "id", 0, 3), ("frnd", 9, "full", "id", 1500, 5)],
+        "expr": [("e2full", 2, "full", "id", 0, 6), ("e3mid", 3, "mid", "id", 0, 3), ("e1lits", 1, "full", "all", 0, 4),
+                 ("ernd", 12, "full", "all", 1500, 5)],
+        "file": [("f2full", 2, "full", "id", 0, 6), ("f3full", 3, "full", "id", 0, 3), ("f4mid", 4, "mid", "id", 0, 3), ("frnd", 9, "full", "id", 800, 5)],
         "near": {"expr": (900, 26), "file": (500, 36)},
     }
+
+
+def design_check(ctx):
+    """renderer / recogniser agreement and the pinned member / non-member strings (spec/C14MC.tla)"""
+    runs = [("expr", 2, "small")] if ctx.quick else [("expr", 2, "mid"), ("file", 3, "small")]
+    for mode, budget, alpha in runs:
+        env = {"C14_MODE": mode, "C14_BUDGET": budget, "C14_DEPTH": 6, "C14_ALPHA": alpha, "C14_LEAVES": "id", "C14_TRACES": 0, "C14_SEED": 1}
+        r = ctx.tlc_ok("C14MC", "C14MC.cfg", env=env, workers=vlib.NCPU, timeout=1800, heap="8g", tag="mc-" + mode)
+        ctx.log("design check %s budget=%d alpha=%s: %d states, renderings accepted by Grammar!Recognise" % (mode, budget, alpha, r["states"]))
 
 
 def run(ctx):
     rnd = random.Random(ctx.seed)
     pl = plan(ctx)
+    design_check(ctx)
     parts = os.environ.get("C14_PARTS", "abc")      # development aid: run only some parts
     if "a" not in parts:
         pl["expr"], pl["file"] = pl["expr"][:1], pl["file"][:1]
@@ -477,7 +508,7 @@ def run(ctx):
             n_texts += summ["texts"]
             n_distinct += summ["distinct"]
             n_nodes += summ["nodes"]
-            samples += [s["text"] for s in summ["samples"][:1]]
+            samples += [s["text"] for s in (summ.get("samples") or [])[:1]]
             if not traces:
                 pools[mode] += recs
             for l in lits:
